@@ -391,6 +391,20 @@ def widened(ctx, st, pd):
     rng, quick = ctx.rng, ctx.quick
     J = _Jobs(ctx)
 
+    # (d0) float count vectors that are whole numbers only up to round-off (frequencies times depth, e.g. 0.29 * 100 = 28.999999999999996):
+    # pc_n is the formula on the numbers as given - nothing is truncated or rounded to integers on the way (seeded change C06-r7m3)
+    for t in range(12 if quick else 150):
+        K = rng.randint(2, 6)
+        ints = [rng.randint(1, 60) for _ in range(K)]
+        N = sum(ints)
+        fl = [(c / N) * N for c in ints] if t % 3 else [c * (1 - 2.0 ** -52) for c in ints]
+        if t % 3 == 1:
+            fl = [0.29 * 100, 0.57 * 100, 7.0, float(rng.randint(1, 9))]
+        vals = [Fraction(x) for x in fl]
+        Nq = sum(vals)
+        exp = sum(x * (x - 1) for x in vals) / (Nq * (Nq - 1))
+        J.add('float counts', 'pc_n[float64 counts, whole up to round-off]', st.pc_n, (np.array(fl, dtype=np.float64),), 'pc', exp=exp,
+              desc='float64 counts %s' % [repr(x) for x in fl], replay=dict(counts_float=[x.hex() for x in fl]))
     # (d) count vectors in the container kinds a caller has at hand: pc_n, varpc_n, stdpc_n and pc_n again on the SAME object
     base = [list(c) for K in (1, 2, 3) for N in (2, 3, 4, 5, 6) for c in compositions(N, K)]
     if quick:
